@@ -26,6 +26,8 @@ func checkC15(c *Ctx) {
 	c.Expect("C15-R4", 4)
 	c.Expect("C15-R5", 6)
 	c.Expect("C15-R6", 1)
+	c.Rule("C15-R7", "only the capability is subject to padding: text of the application spliced into it (title, URL) is not searched for $<...> (a constant, base64, or written by a wrapper that strips the capability first)")
+	c.Expect("C15-R7", 2)
 	if err := tpSelfTest(); err != nil {
 		c.Undecided("C15-R2", "self-test", "-", err.Error())
 		return
@@ -42,6 +44,9 @@ func checkC15(c *Ctx) {
 	c15TColor(c, p)
 	c15TPuts(c, p)
 	c15TPutsSegments(c, p)
+	if p.Tcell != nil {
+		checkTextNotPadded(c, p, "C15-R7")
+	}
 	if tp := p.Fn("terminfo:(*Terminfo).TParm"); tp != nil {
 		charOutputRule(c, p, tp, nil, "C15-R6")
 	} else {
